@@ -295,8 +295,10 @@ def wire_style(r):
         return None
     if x < 0.85:
         return [4, None]
-    if x < 0.95:
+    if x < 0.92:
         return [r.choice([1, 2, 3]), r.choice([None, 1, 2])]
+    if x < 0.96:
+        return [r.choice([5, 8]), r.choice([None, 5])]  # leading zero length octets beyond four
     return [4, 4]
 
 
